@@ -594,6 +594,13 @@ class Interp(object):
                 return TRUE if a.node is b.node else FALSE
             if a.kind == "contract":
                 return TRUE if a.contract is b.contract else FALSE
+        for x, y in ((a, b), (b, a)):
+            if isinstance(x, Opaque) and x.sort == "Val" and isinstance(y, Bool) and y.t.s in ("true", "false"):
+                # `<context value> is False / True`: an abstract predicate that implies == with the constant
+                from .dicts import val_is_const
+                self.assumptions.add("context values: `x is False` / `x is True` is a predicate of the ==-class of x (scalars "
+                                     "that compare equal, such as False and 0, are one context value in the encoding)")
+                return val_is_const(self, x.t, y.t.s == "true")
         if isinstance(a, (Fun, Ref, Opaque, Num, Bool, Str, Tup)) and isinstance(b, (Fun, Ref, Opaque, Num, Bool, Str, Tup)) \
                 and type(a) is not type(b) and (isinstance(a, (Fun, Ref)) or isinstance(b, (Fun, Ref))):
             return FALSE      # a function / heap object is never identical to a value of another kind
@@ -798,6 +805,16 @@ class Interp(object):
             return [(s, repeat_seq(self, s, a, b) if self.is_seq(s, a) else repeat_seq(self, s, b, a))]
         if isinstance(op, ast.Add) and isinstance(a, Str) and isinstance(b, Str):
             return [(s, Str(a.s + b.s))]
+        if isinstance(op, ast.Add):
+            def vlike(x):
+                return (isinstance(x, Opaque) and x.sort == "Val") or (isinstance(x, Ref) and isinstance(s.heap.get(x.cid), ValCell))
+
+            def slike(x):
+                return isinstance(x, Str) or (isinstance(x, Opaque) and x.sort == "Key")
+            if (vlike(a) and slike(b)) or (slike(a) and vlike(b)):
+                # <context item> + <string>: concatenation, provided the item is a string (an obligation at this use)
+                from .lib import str_operand
+                a, b = str_operand(self, s, a, "+"), str_operand(self, s, b, "+")
         if isinstance(op, ast.Add) and (isinstance(a, Opaque) and a.sort == "Key" or isinstance(b, Opaque) and b.sort == "Key") \
                 and isinstance(a, (Str, Opaque)) and isinstance(b, (Str, Opaque)):
             # string concatenation with a symbolic string: a function of both parts; appending a non-empty literal
